@@ -322,6 +322,7 @@ func runC11(res *hx.Result, rng *hx.Rng, tier string, outdir string) {
 		}
 		c11RealPipe(res, hang, reps)
 		c11RealKinds(res, hang, tier)
+		c11OwnConnections(res, hang, tier)
 		c11Sessions(res, rng, hang, tier)
 	}
 	res.Exhaustive = skipped == 0
